@@ -8,6 +8,9 @@ CONSTANTS
   U = "%s"
   K = %d
   Big = %s
+  DevFirstTokenNotWhole = FALSE
+  DevLastTokenIsFirst = FALSE
+  DevKeyIgnoresTag = %s
 INVARIANTS RefinesAndExports
 CHECK_DEADLOCK FALSE
 """
@@ -15,7 +18,7 @@ CHECK_DEADLOCK FALSE
 
 def mc_and_replay(v, wd, universe, k, big, name=None, workers=12, timeout=3000, min_cases=10):
     name = name or universe
-    r = vlib.run_tlc("MC_Net", CFG % (universe, k, "TRUE" if big else "FALSE"), wd, "mc_" + name,
+    r = vlib.run_tlc("MC_Net", CFG % (universe, k, "TRUE" if big else "FALSE", "FALSE"), wd, "mc_" + name,
                      workers=workers, timeout=timeout, heap="12g")
     if r["error"]:
         raise vlib.ToolError("M1 failed on universe %s: %s" % (universe, r["error"][:2000]))
@@ -30,6 +33,16 @@ def mc_and_replay(v, wd, universe, k, big, name=None, workers=12, timeout=3000, 
     rep = vlib.load_report(rep_path)
     v.add_report(rep, "M2:MC_Net/" + name, traces=len(rest))
     return r, rep
+
+
+def optimizer_selftest(v, wd):
+    """Sensitivity of the M1 design property FuseSound (spec/Optimizer.tla): with the grouping key of
+    the pinned tree (tag not part of the key, named deviation DevKeyIgnoresTag) TLC must find a list on
+    which fusing changes a hit."""
+    r = vlib.run_tlc("MC_Net", CFG % ("c05", 2, "FALSE", "TRUE"), wd, "mc_c05_devkey", workers=8, timeout=900, heap="8g")
+    vlib.require(bool(r["error"]) and "RefinesAndExports" in r["error"],
+                 "Optimizer.tla lost its sensitivity to the grouping key (DevKeyIgnoresTag did not violate FuseSound)")
+    v.assumptions.append("M1 self-test: with DevKeyIgnoresTag = TRUE TLC reports a FuseSound violation on universe c05 (K=2)")
 
 
 def corpus_stage(v, wd, seed, n_lists, reqs_per_list=40, name="corpus"):
